@@ -210,6 +210,8 @@ def tlc(module, cfg, workers=None, timeout=600, simulate=None, depth=None, seed=
     jopts = ["-XX:+UseParallelGC", "-Xmx" + xmx, "-Xss32m"]
     if dfs:
         jopts.append("-Dtlc2.tool.queue.IStateQueue=StateDeque")
+    if (workers or NCPU) == 1:
+        jopts.append("-XX:ParallelGCThreads=2")
     cmd = ["java"] + jopts + ["-cp", TLA_JAR + ":" + TLA_DEPS, "tlc2.TLC", "-metadir", meta,
                              "-workers", str(workers or NCPU), "-config", cfg, "-noGenerateSpecTE"]
     if coverage:
